@@ -195,6 +195,15 @@ pub fn run(case: &Case, ctx: &mut Ctx) -> CaseOutcome {
     // reference: one file at a time in dependency order, pristine tree
     let r = rseq_cached(env, ctx.cache, &case.project, &a, &good, cfg);
 
+    if let Some(f) = &r.hung {
+        // the per-file pass itself never returns, with no coordinator or pool involved
+        if prop == "C03" {
+            out.violate("C03", "hang", format!("processing {f} alone (one file, calling thread) did not return within 90 s"));
+        }
+        out.poisoned = true;
+        out.recorded = Some(case.clone());
+        return out;
+    }
     // the tree the simulated run sees: sources + dirty generated paths
     tree::plant(&env.root, &case.project);
     let dirty_seed: u64 = case
